@@ -533,7 +533,6 @@ func sVoterOnlyBallots(c *Ctx, rule string) {
 	}
 }
 
-
 // c07R9: a leader whose newly committed configuration no longer gives it a
 // vote (removed OR demoted) gives up leadership in that same pass of the
 // commit arm; the test must be about the vote, not mere membership.
